@@ -5,6 +5,15 @@ here = os.path.dirname(os.path.dirname(os.path.abspath(__file__)))
 
 # id -> (technique, level text, level note, design ref)
 CHECKS = {
+    "C11": (
+        "Hypothesis-generated feature sets and query combinations; brute-force filter + SQLite-ordering monotonicity oracle",
+        "3-30 features with mixed-case/non-ASCII/numeric-looking text columns, '.' coordinates and ties are queried ~25 times each through "
+        "all_features/features_of_type with featuretype (str/list/tuple), strand, every order_by column incl. 'length' and 'file_order' (string and "
+        "tuple forms) and reverse; results must be a permutation of the brute-force answer and monotone under NULL < int < UTF-8 bytes; counts and "
+        "distinct featuretypes/seqids must equal a full scan.",
+        "SQLite BINARY collation model sk() in gfv/props/c11.py; ties unordered; reverse only for one column.",
+        "DESIGN.md section 4 C11",
+    ),
     "C06": (
         "Hypothesis-generated feature sets with bin-boundary-biased coordinates; brute-force filter oracle over region()/limit= query forms",
         "Databases of 3-25 features placed at +-2 of 2^17*8^k bin edges and of 2^29 are queried 12-20 times each through region() (tuple, string, "
